@@ -26,6 +26,8 @@ import (
 	"github.com/go-jose/go-jose/v4"
 	"github.com/rs/zerolog"
 
+	"github.com/dadrus/heimdall/internal/cache"
+	"github.com/dadrus/heimdall/internal/cache/memory"
 	"github.com/dadrus/heimdall/internal/config"
 	"github.com/dadrus/heimdall/internal/handler/requestcontext"
 	"github.com/dadrus/heimdall/internal/heimdall"
@@ -771,6 +773,11 @@ func c04Run(c map[string]any) (any, error) {
 			stepConf["cache_ttl"] = "5s"
 		}
 
+		// rule-level assertions (the check of a credential then depends on the step)
+		if aud := c04Strs(sm, "aud"); len(aud) != 0 {
+			stepConf["assertions"] = map[string]any{"audience": aud}
+		}
+
 		if len(stepConf) != 0 {
 			step["config"] = stepConf
 		}
@@ -785,10 +792,30 @@ func c04Run(c map[string]any) (any, error) {
 		return map[string]any{"rule_error": c04Kinds(err)}, nil
 	}
 
+	// optionally a real in-memory cache, as the services put it into the request context
+	var cch cache.Cache
+
+	if getBool(c, "cache") {
+		cch, err = memory.NewCache(nil, nil, nil)
+		if err != nil {
+			return nil, err
+		}
+
+		if err = cch.Start(context.Background()); err != nil {
+			return nil, err
+		}
+
+		defer cch.Stop(context.Background()) //nolint:errcheck
+	}
+
 	out := []any{}
 
 	for _, r := range getArr(c, "reqs") {
 		req := c04Request(obj(r), tokens)
+		if cch != nil {
+			req = req.WithContext(cache.WithContext(req.Context(), cch))
+		}
+
 		ctx := requestcontext.New(req)
 
 		rec.take()
